@@ -457,7 +457,8 @@ def hmeta_check(h, m):
     return True
 
 
-def make_harness(cls_name, Model_, apply_model_, apply_impl_, obs_impl_, obs_model_, spec, U, absent, cands):
+def make_harness(cls_name, Model_, apply_model_, apply_impl_, obs_impl_, obs_model_, spec, U, absent, cands,
+                 extra=None):
     """history harness shared by the container properties"""
     weighted = spec["weighted"]
     ops = spec["ops"]
@@ -518,6 +519,8 @@ def make_harness(cls_name, Model_, apply_model_, apply_impl_, obs_impl_, obs_mod
                             obs_model_(shadow[1], f, U, absent, cands, full))
                 if d:
                     return Fail("%s:copy-source-changed:%s" % (op[0], d))
+        if extra is not None:
+            return extra(h, m, S, f)
         return None
 
     return harness
@@ -636,8 +639,8 @@ def state_graph(U, weighted, gen_ops, run_model_, max_depth=5, max_states=400):
     return hist
 
 
-def gen_obligations(tier, seed, universes, alphabet_, run_model_, gen_filter, stride_k=4, n_long=(24, 300),
-                    max_states=(250, 2000), max_depth=(4, 6)):
+def gen_obligations(tier, seed, universes, alphabet_, run_model_, gen_filter, stride_k=3, n_long=(12, 300),
+                    max_states=(100, 2000), max_depth=(4, 6)):
     rng = random.Random(seed)
     out = []
     q = tier == "quick"
@@ -699,7 +702,7 @@ def budget(tier):
 META = {
     "bounds": {
         "quick": "labels {0,1,2}; the 12 ordered pairs of disjoint non-empty subsets (sorted, reversed and bare-label "
-                 "listings); every single op; abstract states reachable within 4 ops (cap 250) x 4 ops (stride); 24 "
+                 "listings); every single op; abstract states reachable within 4 ops (cap 100) x 3 ops (stride); 12 "
                  "seeded histories of length 4-6; weighted and unweighted; weights, metadata values and filter "
                  "value unbounded symbolic integers",
         "thorough": "universes {0,1,2} and {'a','b','c'}; abstract states within 6 ops (cap 2000) x two histories x "
